@@ -29,7 +29,7 @@ import Nstd.Variant.DeepSelf
   Refused lines: `stepD`/`specStepD`/`drun`/`ddrive` skip a line that `step`/`specStep` refuse
   (`bad-op` on both sides of the correspondence; both sides refuse the same lines, `refuses_same`).
   The precondition `mutOk` — a Variant reached through a mutable accessor of `v` is not given `v`
-  itself as source — makes the self-append scenario (`v.toList().append(v)`) such a refused line:
+  itself as source (a typed assignment of a temporary built from `v` is fine at any path) — makes the self-append scenario (`v.toList().append(v)`) such a refused line:
   "for all histories" includes it only as a no-op on both sides, whereas the real code builds a
   cycle there (known finding KF-C07-self-append, probed on every run).
 -/
@@ -814,5 +814,25 @@ example : ∀ op ∈ sampleDeepOps, Deep.OpSup op := by
 example : specRun ieee Store.init sampleDeepOps 0 = .array [.list [.int 7, .str [97], .str [97]], .list [.int 7, .str [97], .str [97]]] ∧
     specRun ieee Store.init sampleDeepOps 2 = .str [97] := by
   constructor <;> rfl
+
+/-- a temporary that holds a copy of the destination, assigned *below the root* of the destination
+    (`List<Variant> t; t.append(v); t.append(2); v.toList().front() = t;`): accepted by the specification and by the
+    deep model (`selfTempStep`: the temporary exists before the accessor chain runs, so the chain clones), covered by
+    `deep_refines` like every other line; the element becomes the list of the *old* value of `v` -/
+def sampleSelfTemp : List Op :=
+  [ .new 0 (.list [.lit (.int 1)]),
+    .copy 1 0,
+    .mut 0 [.li 0] (.set (.list [.var 0, .lit (.int 2)])) ]
+
+example : ∀ op ∈ sampleSelfTemp, Deep.OpSup op := by
+  intro op hop
+  simp [sampleSelfTemp] at hop
+  rcases hop with rfl | rfl | rfl <;> simp [Deep.OpSup, Deep.LeafSupS, Deep.SrcLit, Deep.LitOk]
+
+example : specRun ieee Store.init sampleSelfTemp 0 = .list [.list [.list [.int 1], .int 2]] ∧
+    specRun ieee Store.init sampleSelfTemp 1 = .list [.int 1] ∧
+    (Deep.ddrive ieee Deep.dinit sampleSelfTemp).map (fun s => (s.read 0, s.read 1)) =
+      some (.list [.list [.list [.int 1], .int 2]], .list [.int 1]) := by
+  refine ⟨?_, ?_, ?_⟩ <;> rfl
 
 end Nstd.Variant
